@@ -98,6 +98,23 @@ Theorem C13_cancel_always_stops_process : forall sched i c, no_restart sched = t
 Proof. exact cancel_always_stops_process. Qed.
 Print Assumptions C13_cancel_always_stops_process.
 
+(* a remote unit that is cancelled or released before its work was started on the remote node is
+   never submitted afterwards (Cancel stops the submitting job and waits for it), whatever happens
+   later; a Cancel that leaves the job alone is refuted *)
+Theorem C13_remote_cancel_stops_job : forall a before after,
+  a = RmCancel \/ a = RmRelease ->
+  r_started (rem_run true before rem0) = false ->
+  let r := rem_run true after (rem_step true a (rem_run true before rem0)) in
+  r_started r = false /\ r_job r = false.
+Proof. exact remote_cancel_stops_job. Qed.
+Print Assumptions C13_remote_cancel_stops_job.
+
+Theorem C13_remote_cancel_without_stopping_refuted :
+  let r := rem_run false [RmCancel; RmReach true; RmTry] rem0 in
+  r_cancelled r = true /\ r_state r = Failed /\ r_started r = true.
+Proof. exact remote_cancel_without_stopping_refuted. Qed.
+Print Assumptions C13_remote_cancel_without_stopping_refuted.
+
 (* unit IDs: for every candidate stream and every interleaving of allocations (also those that
    fail after creating the directory) and releases, the index never holds an ID twice, and an ID
    handed out was neither in the index nor a directory on disk *)
